@@ -18,7 +18,7 @@ import Mathlib.Analysis.SpecialFunctions.Pow.Deriv
 import Mathlib.Analysis.SpecialFunctions.Sqrt
 import Mathlib.Analysis.Calculus.Deriv.Abs
 import Mathlib.Analysis.Calculus.FDeriv.Pi
-import PorepyVerif.C01.Generated
+import PorepyVerif.C01.Model
 
 set_option linter.unusedSimpArgs false
 namespace PorepyVerif.C01
